@@ -27,10 +27,11 @@ template <typename F> static std::string with_dtype(const Args& a, F f) {
     static std::string FN(const iarr_t& arr, const Args& a, bool eager) {                                                \
         bool keep = c08::keepdims_of(a);                                                                                 \
         bool dt = has(a, "dtype") && get(a, "dtype") != "None";                                                           \
-        if (dt) {   /* dtype given: vector axis, no initial */                                                           \
+        if (dt) {   /* dtype given: vector axis, initial absent or present */                                            \
             auto ax = intsi(a, "axis");                                                                                   \
             return with_dtype(a, [&](auto dtype) {                                                                       \
-                return eager ? c08::emit(na::NAME(arr, ax, dtype, nm::None, keep)) : c08::emit(view::NAME(arr, ax, dtype, nm::None, keep)); }); \
+                return c08::with_init<int>(a, [&](auto init) {                                                            \
+                    return eager ? c08::emit(na::NAME(arr, ax, dtype, init, keep)) : c08::emit(view::NAME(arr, ax, dtype, init, keep)); }); }); \
         }                                                                                                                 \
         return c08::with_axis(a, [&](const auto& axis) {                                                                  \
             return c08::with_init<int>(a, [&](auto init) {                                                                \
